@@ -110,6 +110,9 @@ impl ProofOfSignatureKnowledge for PokSignatureProof {
         if self.proof.len() != hidden + 2 {
             return Err(Error::General("Invalid proof - wrong number of responses"));
         }
+        if known.len() != revealed_messages.len() {
+            return Err(Error::General("Invalid proof - revealed message index"));
+        }
 
         let mut points = Vec::new();
         let mut scalars = Vec::new();
